@@ -69,8 +69,24 @@ def build(x):
         # behave exactly like one constructed with (value, unit)
         q = getattr(U, x[0])(x[3][0], x[3][1])
         q.to(x[2], inplace=True)
-        return q
-    return getattr(U, x[0])(x[1], x[2])
+    else:
+        q = getattr(U, x[0])(x[1], x[2])
+    if len(x) > 4 and x[4] is not None:
+        # someone took a converted copy of the operand and re-labelled *their copy* in place: the operand itself,
+        # and any later conversion of it, must be unaffected (a copying conversion returns an independent object)
+        try:
+            c = q.to(x[4][0])
+            c.to(x[4][1], inplace=True)
+        except Exception:  # noqa: BLE001
+            pass
+    return q
+
+
+def with_alias(rng, x, p=0.15):
+    if x[0] == 'num' or rng.random() > p or not sign_ok(x[0], x[1]):
+        return x
+    us = units_of(x[0])
+    return list(x[:3]) + [x[3] if len(x) > 3 else None, [rng.choice(us), rng.choice(us)]]
 
 
 def via_inplace(rng, x):
@@ -291,12 +307,17 @@ def gen_bin_cases(ctx, per_cell):
         if ka == 'num' and kb == 'num':
             continue
         for op in OPS:
-            for _ in range(per_cell):
+            try:
+                valid = spec_kind(op, ka, kb) is not None
+            except Exception:  # noqa: BLE001
+                valid = False
+            # cells where dimensional analysis defines a result get more unit / magnitude samples than those that must raise
+            for _ in range(per_cell * 6 if valid else per_cell):
                 def operand(k):
                     if k == 'num':
                         return ['num', gen_value(rng)]
                     x = [k, gen_value(rng, k), rng.choice(units_of(k))]
-                    return via_inplace(rng, x) if sign_ok(k, x[1]) else x
+                    return with_alias(rng, via_inplace(rng, x)) if sign_ok(k, x[1]) else x
                 cases.append({'t': 'bin', 'op': op, 'a': operand(ka), 'b': operand(kb)})
     return cases
 
@@ -460,7 +481,18 @@ def eval_conv(ctx, cases):
                 after_use = same
             except Exception as ex:  # noqa: BLE001
                 after_use = type(ex).__name__
-        impl.append((copy, inpl, untouched, back, (q2.value, q2.unit), after_use))
+        # a copying conversion returns an independent object: re-labelling the copy in place changes neither the
+        # original nor what a later conversion of the original returns
+        independent = True
+        if copy[0] == 'ok':
+            try:
+                c1 = q.to(u2)
+                c1.to(u, inplace=True)
+                c2 = q.to(u2)
+                independent = (q.value == v and q.unit == u and c2.value == copy[2] and c2.unit == u2 and c2 is not c1)
+            except Exception as ex:  # noqa: BLE001
+                independent = type(ex).__name__ == 'ValueError'
+        impl.append((copy, inpl, untouched and independent, back, (q2.value, q2.unit), after_use))
         lines.append(f'u to {desc([k, v, u])} {uidx(k, u2)}')
         lines.append(f'u toi {desc([k, v, u])} {uidx(k, u2)}')
         keep.append(c)
@@ -481,7 +513,7 @@ def eval_conv(ctx, cases):
             if inpl[0] != 'ok' or (inpl[2], inpl[3]) != (copy[2], copy[3]) or after != (copy[2], copy[3]):
                 ctx.violation(c, {'why': 'in-place conversion differs from the copying one', 'copy': copy, 'inplace': inpl, 'after': after})
             if not untouched:
-                ctx.violation(c, {'why': 'copying conversion modified the original'})
+                ctx.violation(c, {'why': 'copying conversion modified the original, or its result is not an independent object'})
             if after_use is not True and after_use is not None and not (isinstance(after_use, str) and after_use == 'ValueError'):
                 ctx.violation(c, {'why': 'an object converted in place does not behave like the converted copy in later arithmetic / comparisons', 'detail': after_use})
             if back[0] != 'ok' or (not underflow and not close(float(back[2]), float(v), 1e-12)) or back[3] != u:
